@@ -131,11 +131,11 @@ var props = map[string]*Prop{
 		Units: []Unit{
 			{Name: "pebble-interleavings", Pkg: "pkg/storage/pebbledb", Test: "TestVerifC11", Tags: []string{"verif_sched"}, Shards: sh(16, 16), GoMaxProcs: 2, TimeoutS: sh(900, 3600), DeadlineS: sh(300, 2400),
 				Profile: ovgen.Profile{Imports: []ovgen.ImportRewrite{
-					{File: "pkg/storage/pebbledb/store.go", Map: map[string]string{"sync": ovgen.ShimBase + "vsync", "github.com/cockroachdb/pebble": ovgen.ShimBase + "vpebble"}},
+					{File: "pkg/storage/pebbledb/store.go", Map: map[string]string{"sync": ovgen.ShimBase + "vsync", "sync/atomic": ovgen.ShimBase + "vatomic", "github.com/cockroachdb/pebble": ovgen.ShimBase + "vpebble"}},
 				}}},
 			{Name: "json-interleavings", Pkg: "pkg/storage/jsondb", Test: "TestVerifC11JSON", Shards: sh(4, 4), GoMaxProcs: 2, TimeoutS: sh(900, 3600),
 				Profile: ovgen.Profile{Imports: []ovgen.ImportRewrite{
-					{File: "pkg/storage/jsondb/json_store.go", Map: map[string]string{"sync": ovgen.ShimBase + "vsync"}},
+					{File: "pkg/storage/jsondb/json_store.go", Map: map[string]string{"sync": ovgen.ShimBase + "vsync", "sync/atomic": ovgen.ShimBase + "vatomic"}},
 				}}},
 			{Name: "pebble-race-freerunning", Pkg: "pkg/storage/pebbledb", Test: "TestVerifC11Race", Shards: sh(8, 8), Race: true, TimeoutS: sh(900, 3600)},
 			{Name: "json-race-freerunning", Pkg: "pkg/storage/jsondb", Test: "TestVerifC11JSONRace", Shards: sh(1, 2), Race: true, TimeoutS: sh(900, 3600)},
